@@ -150,12 +150,15 @@ std::string Tracked::firstError;
 struct Fail
 {
     bool bad = false;
-    std::string kind, msg;
+    std::string kind, msg, obs;     // obs: the observer that disagreed, when it is not the mutating op itself
     void set(const char* k, const std::string& m) { if (!bad) { bad = true; kind = k; msg = m; } }
+    void setObs(const char* o, const char* k, const std::string& m) { if (!bad) { bad = true; kind = k; msg = m; obs = o; } }
 };
 #define CHECK(f, cond, kind, msg) do { if (!(cond)) (f).set(kind, msg); } while (0)
+#define CHECKO(f, cond, obs, kind, msg) do { if (!(cond)) (f).setObs(obs, kind, msg); } while (0)
 
 static std::string istr(long long v) { return std::to_string(v); }
+static inline void num(std::string& o, size_t v) { if (v < 10) { o += (char)('0' + v); return; } char b[24]; int n = 0; while (v) { b[n++] = (char)('0' + v % 10); v /= 10; } while (n) o += b[--n]; }
 
 // position codes: 0 = begin, 1 = middle, 2 = end. A code that coincides with a lower code is disabled (-1).
 static int insPos(int pc, size_t n) { size_t v[3] = { 0, n / 2, n }; for (int j = 0; j < pc; ++j) if (v[j] == v[pc]) return -1; return (int)v[pc]; }
@@ -176,6 +179,7 @@ struct Sys
     virtual void key(std::string& out) const = 0; // canonical key, reads fields only (never calls a lazily allocating observer)
     virtual void compare(Fail& f) = 0;            // the full oracle battery
     virtual void finish(Fail& f) = 0;             // destroy the implementation objects, check balances
+    virtual std::string sigSuffix() const { return std::string(); }   // qualifies the signature by a property of the model state
 };
 
 struct Container
@@ -274,25 +278,25 @@ struct MapShape
         listNodes(m.m_entries, live, b1);
         listNodes(m.m_freeEntries, freeN, b2);
         if (f) { CHECK(*f, !b1 && !b2, "invariant", std::string(which) + ": entry list links are broken"); }
-        o += 'n'; o += istr(m.m_buckets.m_size); o += 'c'; o += istr(m.m_buckets.m_allocation); o += '|';
+        o += 'n'; num(o, m.m_buckets.m_size); o += 'c'; num(o, m.m_buckets.m_allocation); o += '|';
         for (size_t b = 0; b < m.m_buckets.m_size; ++b)
         {
             const typename M::BucketType& bk = m.m_buckets.m_data[b];
-            o += '['; o += istr(bk.m_allocation); o += ':';
+            o += '['; num(o, bk.m_allocation); o += ':';
             for (size_t j = 0; j < bk.m_size; ++j)
             {
                 const typename M::EntryListType::Node* n = bk.m_data[j].currentNode;
                 size_t li = std::find(live.begin(), live.end(), n) - live.begin();
                 size_t fi = std::find(freeN.begin(), freeN.end(), n) - freeN.begin();
-                if (li < live.size()) { o += 'L'; o += istr(li); }
-                else if (fi < freeN.size()) { o += 'F'; o += istr(fi); }
+                if (li < live.size()) { o += 'L'; num(o, li); }
+                else if (fi < freeN.size()) { o += 'F'; num(o, fi); }
                 else { o += '?'; if (f) f->set("invariant", std::string(which) + ": bucket " + istr(b) + " refers to a node that is in neither the entry list nor the free list"); }
                 o += ' ';
             }
             o += ']';
         }
-        o += "|f"; o += istr(freeN.size()); o += 'e'; o += istr(m.m_eraseCount); o += 't'; o += istr(m.m_eraseThreshold);
-        o += 'l'; o += istr(listFreeNodes(m.m_entries)); o += ','; o += istr(listFreeNodes(m.m_freeEntries));
+        o += "|f"; num(o, freeN.size()); o += 'e'; num(o, m.m_eraseCount); o += 't'; num(o, m.m_eraseThreshold);
+        o += 'l'; num(o, listFreeNodes(m.m_entries)); o += ','; num(o, listFreeNodes(m.m_freeEntries));
         o += (m.m_entries.m_listHead ? 'h' : '-'); o += (m.m_freeEntries.m_listHead ? 'h' : '-');
         if (f == 0) return;
         CHECK(*f, m.m_size == live.size(), "invariant", std::string(which) + ": m_size " + istr(m.m_size) + " but the entry list holds " + istr(live.size()));
@@ -325,16 +329,24 @@ struct MapShape
             if (++guard > 64) { f.set("contents", w + ": iteration does not end"); return; }
             got.push_back(std::make_pair(Codec::index((*i).first), i->second));
         }
-        std::string gs, ms;
-        for (auto& p : got) gs += (p.first < 0 ? std::string("?") : Codec::show(p.first)) + "=" + istr(p.second) + " ";
-        for (int k : mod.order) ms += Codec::show(k) + "=" + istr(mod.ref.find(k)->second) + " ";
         {
-            std::map<int, int> asSet;
-            bool dup = false;
-            for (auto& p : got) { if (asSet.count(p.first)) dup = true; asSet[p.first] = p.second; }
-            CHECK(f, !dup && asSet == mod.ref, "contents", w + ": iteration yields {" + gs + "} model {" + ms + "}");
+            bool sameSet = got.size() == mod.ref.size(), sameOrder = got.size() == mod.order.size();
+            for (size_t i = 0; i < got.size(); ++i)
+            {
+                std::map<int, int>::const_iterator r = mod.ref.find(got[i].first);
+                if (r == mod.ref.end() || r->second != got[i].second) sameSet = false;
+                for (size_t j = 0; j < i; ++j) if (got[j].first == got[i].first) sameSet = false;
+                if (sameOrder && mod.order[i] != got[i].first) sameOrder = false;
+            }
+            if (!sameSet || !sameOrder)
+            {
+                std::string gs, ms;
+                for (auto& p : got) gs += (p.first < 0 ? std::string("?") : Codec::show(p.first)) + "=" + istr(p.second) + " ";
+                for (int k : mod.order) ms += Codec::show(k) + "=" + istr(mod.ref.find(k)->second) + " ";
+                CHECK(f, sameSet, "contents", w + ": iteration yields {" + gs + "} model {" + ms + "}");
+                CHECK(f, sameOrder, "contents", w + ": iteration order {" + gs + "} differs from insertion order {" + ms + "}");
+            }
         }
-        CHECK(f, gs == ms, "contents", w + ": iteration order {" + gs + "} differs from insertion order {" + ms + "}");
         // const iteration
         {
             const M& cm = m;
@@ -401,9 +413,9 @@ struct MapSys : Sys
     struct Snap { size_t nb, freeN, ec, size; };
     static Snap snap(const M& m)
     {
-        std::vector<const typename M::EntryListType::Node*> fr; bool br;
-        listNodes(m.m_freeEntries, fr, br);
-        return { m.m_buckets.m_size, fr.size(), m.m_eraseCount, m.m_size };
+        size_t fr = 0;
+        if (m.m_freeEntries.m_listHead) for (const typename M::EntryListType::Node* n = m.m_freeEntries.m_listHead->next; n != m.m_freeEntries.m_listHead && fr < 10000; n = n->next) ++fr;
+        return { m.m_buckets.m_size, fr, m.m_eraseCount, m.m_size };
     }
     void apply(int op, Fail& f)
     {
@@ -581,6 +593,949 @@ struct SetSys : Sys
     static Sys* make() { return new SetSys(); }
 };
 
+// =====================================================================================================================
+// XalanVector<Tracked>
+
+static void vtext(const std::vector<int>& v, std::string& o) { for (int x : v) o += (char)('0' + x); }
+static std::string vshow(const std::vector<int>& v) { std::string o = "["; for (size_t i = 0; i < v.size(); ++i) { if (i) o += ','; num(o, v[i]); } return o + "]"; }
+template <class It> static std::string tshow(It b, It e) { std::string o = "["; size_t n = 0; for (; b != e && n < 64; ++b, ++n) { if (n) o += ','; o += ((*b).magic == Tracked::ALIVE ? istr((*b).v) : std::string("DEAD")); } return o + "]"; }
+
+enum { V_PUSH, V_PUSH_ALIAS, V_POP, V_INSERT, V_INSERT_ALIAS, V_INSERT_N, V_INSERT_RANGE, V_ERASE, V_ERASE_RANGE, V_RESIZE, V_RESIZE_FILL,
+       V_RESERVE, V_ASSIGN_RANGE, V_CLEAR, V_SWAP, V_COPY, V_ASSIGN_FROM_B, V_ASSIGN_TO_B, V_ASSIGN_SELF, V_INSERT_N_ALIAS };
+static const char* const PN[3] = { "begin", "mid", "end" };
+static const char* const EN[3] = { "first", "mid", "last" };
+
+struct VecSys : Sys
+{
+    typedef XalanVector<Tracked> V;
+    V* A; V* B;
+    std::vector<int> a, b;
+    static std::vector<OpDesc>& table()
+    {
+        static std::vector<OpDesc> t;
+        if (t.empty())
+        {
+            for (int v = 0; v < 3; ++v) t.push_back({ "push_back(" + istr(v) + ")", V_PUSH, v, 0, 0 });
+            t.push_back({ "push_back_alias(first)", V_PUSH_ALIAS, 0, 0, 0 });
+            t.push_back({ "pop_back", V_POP, 0, 0, 0 });
+            for (int p = 0; p < 3; ++p) for (int v = 0; v < 3; ++v) t.push_back({ std::string("insert(") + PN[p] + "," + istr(v) + ")", V_INSERT, p, v, 0 });
+            for (int p = 0; p < 2; ++p) t.push_back({ std::string("insert_alias(") + PN[p] + ",last)", V_INSERT_ALIAS, p, 0, 0 });
+            t.push_back({ "insert_alias_at_end(last)", V_INSERT_ALIAS, 2, 0, 0 });
+            for (int p = 0; p < 3; ++p) t.push_back({ std::string("insert_n(") + PN[p] + ",2,1)", V_INSERT_N, p, 2, 1 });
+            for (int p = 0; p < 3; ++p) t.push_back({ std::string("insert_n(") + PN[p] + ",3,2)", V_INSERT_N, p, 3, 2 });
+            t.push_back({ "insert_n(mid,0,1)", V_INSERT_N, 1, 0, 1 });
+            t.push_back({ "insert_n_alias(begin,2,last)", V_INSERT_N_ALIAS, 0, 2, 0 });
+            for (int p = 0; p < 3; ++p) t.push_back({ std::string("insert_range(") + PN[p] + ",B)", V_INSERT_RANGE, p, 0, 0 });
+            for (int p = 0; p < 3; ++p) t.push_back({ std::string("erase(") + EN[p] + ")", V_ERASE, p, 0, 0 });
+            t.push_back({ "erase_range(begin,mid)", V_ERASE_RANGE, 0, 1, 0 });
+            t.push_back({ "erase_range(mid,end)", V_ERASE_RANGE, 1, 2, 0 });
+            t.push_back({ "erase_range(begin,end)", V_ERASE_RANGE, 0, 2, 0 });
+            t.push_back({ "erase_range(mid,mid)", V_ERASE_RANGE, 1, 1, 0 });
+            for (int n : { 0, 2, 4 }) t.push_back({ "resize(" + istr(n) + ")", V_RESIZE, n, 0, 0 });
+            for (int n : { 1, 3, 5 }) t.push_back({ "resize_fill(" + istr(n) + ",1)", V_RESIZE_FILL, n, 1, 0 });
+            for (int n : { 3, 6 }) t.push_back({ "reserve(" + istr(n) + ")", V_RESERVE, n, 0, 0 });
+            t.push_back({ "assign_range(B)", V_ASSIGN_RANGE, 0, 0, 0 });
+            t.push_back({ "clear", V_CLEAR, 0, 0, 0 });
+            t.push_back({ "swap", V_SWAP, 0, 0, 0 });
+            t.push_back({ "copy_construct", V_COPY, 0, 0, 0 });
+            t.push_back({ "assign_from_B", V_ASSIGN_FROM_B, 0, 0, 0 });
+            t.push_back({ "assign_to_B", V_ASSIGN_TO_B, 0, 0, 0 });
+            t.push_back({ "assign_self", V_ASSIGN_SELF, 0, 0, 0 });
+        }
+        return t;
+    }
+    VecSys() { A = new V(g_mm); B = new V(g_mm); }
+    const std::vector<OpDesc>& ops() const { return table(); }
+    static int rangePos(int code, size_t n) { return code == 0 ? 0 : code == 1 ? (int)(n / 2) : (int)n; }
+    bool enabled(int op) const
+    {
+        const OpDesc& d = table()[op];
+        const size_t n = a.size();
+        switch (d.code)
+        {
+        case V_PUSH_ALIAS: case V_POP: return n > 0;
+        case V_INSERT: case V_INSERT_N: case V_INSERT_RANGE: return insPos(d.a, n) >= 0;
+        case V_INSERT_ALIAS: case V_INSERT_N_ALIAS: return n > 0 && insPos(d.a, n) >= 0;
+        case V_ERASE: return elPos(d.a, n) >= 0;
+        case V_ERASE_RANGE: return n > 0 && (d.a == d.b || rangePos(d.a, n) < rangePos(d.b, n)) && !(d.a == 0 && d.b == 1 && n / 2 == n);
+        default: return true;
+        }
+    }
+    static void cmp(V& x, const std::vector<int>& m, Fail& f, const char* which)
+    {
+        const std::string w(which);
+        CHECK(f, x.size() == m.size(), "size", w + ": size() " + istr(x.size()) + " model " + istr(m.size()));
+        CHECK(f, x.empty() == m.empty(), "size", w + ": empty() disagrees");
+        CHECK(f, x.capacity() >= x.size(), "invariant", w + ": capacity() < size()");
+        if (f.bad) return;
+        CHECK(f, (size_t)(x.end() - x.begin()) == m.size(), "size", w + ": end()-begin() is " + istr(x.end() - x.begin()));
+        bool same = true;
+        size_t i = 0;
+        for (V::iterator it = x.begin(); it != x.end(); ++it, ++i) if (it->magic != Tracked::ALIVE || it->v != m[i]) same = false;
+        CHECK(f, same, "contents", w + ": iteration yields " + tshow(x.begin(), x.end()) + " model " + vshow(m));
+        if (f.bad) return;
+        const V& cx = x;
+        for (i = 0; i < m.size(); ++i)
+        {
+            CHECK(f, x[i].v == m[i] && cx[i].v == m[i] && x.at(i).v == m[i] && cx.at(i).v == m[i], "contents", w + ": operator[]/at(" + istr(i) + ") disagrees");
+        }
+        i = m.size();
+        for (V::const_reverse_iterator r = cx.rbegin(); r != cx.rend(); ++r) { --i; if (r->v != m[i]) same = false; }
+        CHECK(f, same && i == 0, "contents", w + ": reverse iteration disagrees");
+        if (!m.empty()) CHECK(f, x.front().v == m.front() && x.back().v == m.back() && cx.front().v == m.front() && cx.back().v == m.back(), "contents", w + ": front()/back() disagree");
+        bool threw = false;
+        try { x.at(m.size()); } catch (const std::out_of_range&) { threw = true; }
+        CHECK(f, threw, "return", w + ": at(size()) did not throw std::out_of_range");
+    }
+    void apply(int op, Fail& f)
+    {
+        const OpDesc& d = table()[op];
+        const size_t n = a.size();
+        const size_t cap0 = A->m_allocation; const Tracked* data0 = A->m_data;
+        switch (d.code)
+        {
+        case V_PUSH: { Tracked t(d.a); A->push_back(t); a.push_back(d.a); break; }
+        case V_PUSH_ALIAS: A->push_back((*A)[0]); a.push_back(a[0]); events |= EV_SELF; break;
+        case V_POP: A->pop_back(); a.pop_back(); break;
+        case V_INSERT:
+        {
+            const int p = insPos(d.a, n); Tracked t(d.b);
+            V::iterator r = A->insert(A->begin() + p, t);
+            a.insert(a.begin() + p, d.b);
+            CHECK(f, r == A->begin() + p, "return", "insert(pos,x) returned begin()+" + istr(r - A->begin()) + ", expected begin()+" + istr(p));
+            if ((size_t)p < n) events |= EV_SHIFT;
+            break;
+        }
+        case V_INSERT_ALIAS:
+        {
+            const int p = insPos(d.a, n);
+            V::iterator r = A->insert(A->begin() + p, (*A)[n - 1]);
+            a.insert(a.begin() + p, int(a[n - 1]));
+            CHECK(f, r == A->begin() + p, "return", "insert(pos,x) returned a wrong iterator");
+            events |= EV_SELF;
+            break;
+        }
+        case V_INSERT_N:
+        {
+            const int p = insPos(d.a, n); Tracked t(d.c);
+            A->insert(A->begin() + p, (size_t)d.b, t);
+            a.insert(a.begin() + p, (size_t)d.b, d.c);
+            if ((size_t)p < n) events |= EV_SHIFT;
+            break;
+        }
+        case V_INSERT_N_ALIAS:
+        {
+            const int p = insPos(d.a, n);
+            A->insert(A->begin() + p, (size_t)d.b, (*A)[n - 1]);
+            a.insert(a.begin() + p, (size_t)d.b, int(a[n - 1]));
+            events |= EV_SELF;
+            break;
+        }
+        case V_INSERT_RANGE:
+        {
+            const int p = insPos(d.a, n);
+            const V& cb = *B;
+            A->insert(A->begin() + p, cb.begin(), cb.end());
+            a.insert(a.begin() + p, b.begin(), b.end());
+            if ((size_t)p < n && !b.empty()) events |= EV_SHIFT;
+            break;
+        }
+        case V_ERASE:
+        {
+            const int p = elPos(d.a, n);
+            V::iterator r = A->erase(A->begin() + p);
+            a.erase(a.begin() + p);
+            CHECK(f, r == A->begin() + p, "return", "erase(pos) returned a wrong iterator");
+            break;
+        }
+        case V_ERASE_RANGE:
+        {
+            const int p = rangePos(d.a, n), q = rangePos(d.b, n);
+            V::iterator r = A->erase(A->begin() + p, A->begin() + q);
+            a.erase(a.begin() + p, a.begin() + q);
+            CHECK(f, r == A->begin() + p, "return", "erase(first,last) returned a wrong iterator");
+            break;
+        }
+        case V_RESIZE: A->resize((size_t)d.a); a.resize((size_t)d.a, 0); break;
+        case V_RESIZE_FILL: { Tracked t(d.b); A->resize((size_t)d.a, t); a.resize((size_t)d.a, d.b); break; }
+        case V_RESERVE: A->reserve((size_t)d.a); CHECK(f, A->capacity() >= (size_t)d.a, "return", "capacity() below the reserved amount"); break;
+        case V_ASSIGN_RANGE: { const V& cb = *B; A->assign(cb.begin(), cb.end()); a = b; break; }
+        case V_CLEAR: A->clear(); a.clear(); break;
+        case V_SWAP: A->swap(*B); a.swap(b); break;
+        case V_COPY:
+        {
+            V c(*A, g_mm);
+            cmp(c, a, f, "copy");
+            CHECK(f, (c == *A) && !(c != *A) && !(c < *A) && (c <= *A), "return", "relational operators on a copy disagree");
+            break;
+        }
+        case V_ASSIGN_FROM_B: *A = *B; a = b; break;
+        case V_ASSIGN_TO_B: *B = *A; b = a; break;
+        case V_ASSIGN_SELF: *A = *A; events |= EV_SELF; break;
+        }
+        if (d.code != V_SWAP && (A->m_allocation != cap0 || A->m_data != data0) && cap0 != 0) events |= EV_REALLOC;
+        if (d.code != V_SWAP && A->m_allocation != cap0) events |= EV_GROW;
+    }
+    void key(std::string& o) const
+    {
+        vtext(a, o); o += 'c'; num(o, A->m_allocation); o += '/'; vtext(b, o); o += 'c'; num(o, B->m_allocation);
+    }
+    void compare(Fail& f)
+    {
+        cmp(*A, a, f, "A"); cmp(*B, b, f, "B");
+        CHECK(f, Tracked::errors == 0, "balance", "element lifetime error: " + Tracked::firstError);
+        CHECK(f, Tracked::live == (long)(a.size() + b.size()), "balance", istr(Tracked::live) + " elements alive, the two vectors hold " + istr(a.size() + b.size()));
+        CHECKO(f, (*A == *B) == (a == b) && (*A != *B) == (a != b) && (*A < *B) == (a < b) && (*A <= *B) == (a <= b) && (*A > *B) == (a > b) && (*A >= *B) == (a >= b),
+              "relational_operators", "return", "relational operators between A and B disagree with the model");
+    }
+    void finish(Fail& f) { delete A; delete B; A = B = 0; checkWorld(f); }
+    static Sys* make() { return new VecSys(); }
+};
+
+// =====================================================================================================================
+// XalanList<Tracked>
+
+enum { L_PUSH_BACK, L_PUSH_FRONT, L_POP_BACK, L_POP_FRONT, L_INSERT, L_ERASE, L_SPLICE1_FROM_B, L_SPLICE1_SELF, L_SPLICE_RANGE_FROM_B, L_SPLICE_TAIL_FROM_B,
+       L_SPLICE_RANGE_SELF, L_SPLICE_TO_B, L_CLEAR, L_SWAP };
+struct ListSys : Sys
+{
+    typedef XalanList<Tracked> L;
+    L* A; L* B;
+    std::list<int> a, b;
+    static std::vector<OpDesc>& table()
+    {
+        static std::vector<OpDesc> t;
+        if (t.empty())
+        {
+            for (int v = 0; v < 3; ++v) t.push_back({ "push_back(" + istr(v) + ")", L_PUSH_BACK, v, 0, 0 });
+            for (int v = 0; v < 3; ++v) t.push_back({ "push_front(" + istr(v) + ")", L_PUSH_FRONT, v, 0, 0 });
+            t.push_back({ "pop_back", L_POP_BACK, 0, 0, 0 });
+            t.push_back({ "pop_front", L_POP_FRONT, 0, 0, 0 });
+            for (int p = 0; p < 3; ++p) for (int v = 0; v < 3; ++v) t.push_back({ std::string("insert(") + PN[p] + "," + istr(v) + ")", L_INSERT, p, v, 0 });
+            for (int p = 0; p < 3; ++p) t.push_back({ std::string("erase(") + EN[p] + ")", L_ERASE, p, 0, 0 });
+            for (int p = 0; p < 3; ++p) for (int e = 0; e < 3; e += 2) t.push_back({ std::string("splice_one_from_B(") + PN[p] + "," + EN[e] + ")", L_SPLICE1_FROM_B, p, e, 0 });
+            for (int p = 0; p < 3; ++p) for (int e = 0; e < 3; e += 2) t.push_back({ std::string("splice_one_self(") + PN[p] + "," + EN[e] + ")", L_SPLICE1_SELF, p, e, 0 });
+            for (int p = 0; p < 3; ++p) t.push_back({ std::string("splice_all_from_B(") + PN[p] + ")", L_SPLICE_RANGE_FROM_B, p, 0, 0 });
+            t.push_back({ "splice_tail_from_B(end)", L_SPLICE_TAIL_FROM_B, 2, 0, 0 });
+            t.push_back({ "splice_range_self(end,begin,mid)", L_SPLICE_RANGE_SELF, 0, 0, 0 });
+            t.push_back({ "splice_range_self(begin,mid,end)", L_SPLICE_RANGE_SELF, 1, 0, 0 });
+            t.push_back({ "splice_first_to_B", L_SPLICE_TO_B, 0, 0, 0 });
+            t.push_back({ "clear", L_CLEAR, 0, 0, 0 });
+            t.push_back({ "swap", L_SWAP, 0, 0, 0 });
+        }
+        return t;
+    }
+    ListSys() { A = new L(g_mm); B = new L(g_mm); }
+    const std::vector<OpDesc>& ops() const { return table(); }
+    bool enabled(int op) const
+    {
+        const OpDesc& d = table()[op];
+        const size_t n = a.size(), nb = b.size();
+        switch (d.code)
+        {
+        case L_POP_BACK: case L_POP_FRONT: case L_SPLICE_TO_B: return n > 0;
+        case L_INSERT: return insPos(d.a, n) >= 0;
+        case L_ERASE: return elPos(d.a, n) >= 0;
+        case L_SPLICE1_FROM_B: return insPos(d.a, n) >= 0 && elPos(d.b, nb) >= 0;
+        case L_SPLICE1_SELF: return insPos(d.a, n) >= 0 && elPos(d.b, n) >= 0;
+        case L_SPLICE_RANGE_FROM_B: return insPos(d.a, n) >= 0;
+        case L_SPLICE_TAIL_FROM_B: return nb >= 2;
+        case L_SPLICE_RANGE_SELF: return n >= 2;
+        default: return true;
+        }
+    }
+    static L::iterator at(L& l, int p) { L::iterator i = l.begin(); while (p-- > 0) ++i; return i; }
+    static std::list<int>::iterator at(std::list<int>& l, int p) { std::list<int>::iterator i = l.begin(); std::advance(i, p); return i; }
+    static void cmp(L& x, const std::list<int>& m, Fail& f, const char* which)
+    {
+        const std::string w(which);
+        const L& cx = x;
+        CHECK(f, x.empty() == m.empty(), "size", w + ": empty() disagrees");
+        std::vector<int> mv(m.begin(), m.end());
+        bool same = true; size_t i = 0;
+        for (L::iterator it = x.begin(); it != x.end(); ++it, ++i)
+        {
+            if (i >= 64) { f.set("contents", w + ": iteration does not end"); return; }
+            if (i >= mv.size() || it->magic != Tracked::ALIVE || it->v != mv[i]) same = false;
+        }
+        CHECK(f, same && i == mv.size(), "contents", w + ": iteration yields " + tshow(x.begin(), x.end()) + " model " + vshow(mv));
+        if (f.bad) return;
+        CHECK(f, x.size() == m.size() && cx.size() == m.size(), "size", w + ": size() " + istr(x.size()) + " model " + istr(m.size()));
+        i = 0;
+        for (L::const_iterator it = cx.begin(); it != cx.end() && i < 64; ++it, ++i) if (i >= mv.size() || it->v != mv[i]) same = false;
+        CHECK(f, same && i == mv.size(), "contents", w + ": const iteration disagrees");
+        i = mv.size();
+        for (L::reverse_iterator r = x.rbegin(); r != x.rend(); ++r) { if (i == 0) { same = false; break; } --i; if ((*r).v != mv[i]) same = false; }
+        CHECK(f, same && i == 0, "contents", w + ": reverse iteration (prev links) disagrees with the model");
+        if (!m.empty()) CHECK(f, x.front().v == m.front() && x.back().v == m.back(), "contents", w + ": front()/back() disagree");
+    }
+    void apply(int op, Fail& f)
+    {
+        const OpDesc& d = table()[op];
+        const size_t n = a.size();
+        const size_t free0 = listFreeNodes(*A);
+        switch (d.code)
+        {
+        case L_PUSH_BACK: { Tracked t(d.a); A->push_back(t); a.push_back(d.a); break; }
+        case L_PUSH_FRONT: { Tracked t(d.a); A->push_front(t); a.push_front(d.a); break; }
+        case L_POP_BACK: A->pop_back(); a.pop_back(); break;
+        case L_POP_FRONT: A->pop_front(); a.pop_front(); break;
+        case L_INSERT:
+        {
+            const int p = insPos(d.a, n); Tracked t(d.b);
+            L::iterator r = A->insert(at(*A, p), t);
+            a.insert(at(a, p), d.b);
+            CHECK(f, (*r).v == d.b && r == at(*A, p), "return", "insert returned an iterator that is not the new element at position " + istr(p));
+            break;
+        }
+        case L_ERASE: { const int p = elPos(d.a, n); A->erase(at(*A, p)); a.erase(at(a, p)); break; }
+        case L_SPLICE1_FROM_B:
+        {
+            const int p = insPos(d.a, n), e = elPos(d.b, b.size());
+            A->splice(at(*A, p), *B, at(*B, e));
+            a.splice(at(a, p), b, at(b, e));
+            break;
+        }
+        case L_SPLICE1_SELF:
+        {
+            const int p = insPos(d.a, n), e = elPos(d.b, n);
+            A->splice(at(*A, p), *A, at(*A, e));
+            a.splice(at(a, p), a, at(a, e));
+            events |= EV_SELF;
+            break;
+        }
+        case L_SPLICE_RANGE_FROM_B:
+        {
+            const int p = insPos(d.a, n);
+            A->splice(at(*A, p), *B, B->begin(), B->end());
+            a.splice(at(a, p), b, b.begin(), b.end());
+            break;
+        }
+        case L_SPLICE_TAIL_FROM_B:
+            A->splice(A->end(), *B, at(*B, 1), B->end());
+            a.splice(a.end(), b, at(b, 1), b.end());
+            break;
+        case L_SPLICE_RANGE_SELF:
+            if (d.a == 0) { A->splice(A->end(), *A, A->begin(), at(*A, (int)(n / 2))); a.splice(a.end(), a, a.begin(), at(a, (int)(n / 2))); }
+            else { A->splice(A->begin(), *A, at(*A, (int)(n / 2)), A->end()); a.splice(a.begin(), a, at(a, (int)(n / 2)), a.end()); }
+            events |= EV_SELF;
+            break;
+        case L_SPLICE_TO_B: B->splice(B->end(), *A, A->begin()); b.splice(b.end(), a, a.begin()); break;
+        case L_CLEAR: A->clear(); a.clear(); break;
+        case L_SWAP: A->swap(*B); a.swap(b); break;
+        }
+        if (d.code != L_SWAP && listFreeNodes(*A) < free0) events |= EV_REUSE;
+    }
+    void key(std::string& o) const
+    {
+        for (int x : a) o += (char)('0' + x); o += 'f'; num(o, listFreeNodes(*A)); o += (A->m_listHead ? 'h' : '-'); o += '/';
+        for (int x : b) o += (char)('0' + x); o += 'f'; num(o, listFreeNodes(*B)); o += (B->m_listHead ? 'h' : '-');
+    }
+    void compare(Fail& f)
+    {
+        cmp(*A, a, f, "A"); cmp(*B, b, f, "B");
+        CHECK(f, Tracked::errors == 0, "balance", "element lifetime error: " + Tracked::firstError);
+        CHECK(f, Tracked::live == (long)(a.size() + b.size()), "balance", istr(Tracked::live) + " elements alive, the two lists hold " + istr(a.size() + b.size()));
+    }
+    void finish(Fail& f) { delete A; delete B; A = B = 0; checkWorld(f); }
+    static Sys* make() { return new ListSys(); }
+};
+
+// =====================================================================================================================
+// XalanDeque<Tracked>, block size 2
+
+enum { D_PUSH, D_POP, D_CLEAR, D_RESIZE, D_SET, D_COPY, D_ASSIGN_FROM_B, D_ASSIGN_TO_B, D_ASSIGN_SELF, D_SWAP };
+struct DequeSys : Sys
+{
+    typedef XalanDeque<Tracked> D;
+    D* A; D* B;
+    std::deque<int> a, b;
+    static std::vector<OpDesc>& table()
+    {
+        static std::vector<OpDesc> t;
+        if (t.empty())
+        {
+            for (int v = 0; v < 3; ++v) t.push_back({ "push_back(" + istr(v) + ")", D_PUSH, v, 0, 0 });
+            t.push_back({ "pop_back", D_POP, 0, 0, 0 });
+            t.push_back({ "clear", D_CLEAR, 0, 0, 0 });
+            for (int n : { 0, 1, 3, 4, 6 }) t.push_back({ "resize(" + istr(n) + ")", D_RESIZE, n, 0, 0 });
+            for (int p = 0; p < 3; ++p) t.push_back({ std::string("set(") + EN[p] + ",2)", D_SET, p, 2, 0 });
+            t.push_back({ "copy_construct", D_COPY, 0, 0, 0 });
+            t.push_back({ "assign_from_B", D_ASSIGN_FROM_B, 0, 0, 0 });
+            t.push_back({ "assign_to_B", D_ASSIGN_TO_B, 0, 0, 0 });
+            t.push_back({ "assign_self", D_ASSIGN_SELF, 0, 0, 0 });
+            t.push_back({ "swap", D_SWAP, 0, 0, 0 });
+        }
+        return t;
+    }
+    DequeSys() { A = new D(g_mm, 0, 2); B = new D(g_mm, 3, 2); b.assign(3, 0); }   // B: the initial-size constructor
+    const std::vector<OpDesc>& ops() const { return table(); }
+    bool enabled(int op) const
+    {
+        const OpDesc& d = table()[op];
+        if (d.code == D_POP) return !a.empty();
+        if (d.code == D_SET) return elPos(d.a, a.size()) >= 0;
+        return true;
+    }
+    static void cmp(D& x, const std::deque<int>& m, Fail& f, const char* which)
+    {
+        const std::string w(which);
+        const D& cx = x;
+        CHECK(f, x.size() == m.size(), "size", w + ": size() " + istr(x.size()) + " model " + istr(m.size()));
+        CHECK(f, x.empty() == m.empty(), "size", w + ": empty() disagrees");
+        if (f.bad) return;
+        std::vector<int> mv(m.begin(), m.end());
+        bool same = true; size_t i = 0;
+        for (D::iterator it = x.begin(); it != x.end(); ++it, ++i) { if (i >= mv.size() || (*it).magic != Tracked::ALIVE || (*it).v != mv[i]) same = false; }
+        CHECK(f, same && i == mv.size(), "contents", w + ": iteration yields " + tshow(x.begin(), x.end()) + " model " + vshow(mv));
+        if (f.bad) return;
+        for (i = 0; i < mv.size(); ++i) CHECK(f, x[i].v == mv[i] && cx[i].v == mv[i], "contents", w + ": operator[](" + istr(i) + ") disagrees");
+        i = 0;
+        for (D::const_iterator it = cx.begin(); it != cx.end(); ++it, ++i) if ((*it).v != mv[i]) same = false;
+        CHECK(f, same, "contents", w + ": const iteration disagrees");
+        i = mv.size();
+        for (D::const_reverse_iterator r = cx.rbegin(); r != cx.rend(); ++r) { if (i == 0) { same = false; break; } --i; if ((*r).v != mv[i]) same = false; }
+        CHECK(f, same && i == 0, "contents", w + ": reverse iteration disagrees");
+        if (!m.empty()) CHECK(f, x.back().v == m.back(), "contents", w + ": back() disagrees");
+        for (size_t k = 0; k + 1 < x.m_blockIndex.size(); ++k) CHECK(f, x.m_blockIndex[k]->size() == x.m_blockSize, "invariant", w + ": an inner block is not full");
+        if (!x.m_blockIndex.empty()) CHECK(f, !x.m_blockIndex.back()->empty(), "invariant", w + ": the last block is empty");
+    }
+    void apply(int op, Fail& f)
+    {
+        const OpDesc& d = table()[op];
+        const size_t free0 = A->m_freeBlockVector.m_size, nb0 = A->m_blockIndex.m_size, cap0 = A->m_blockIndex.m_allocation;
+        switch (d.code)
+        {
+        case D_PUSH: { Tracked t(d.a); A->push_back(t); a.push_back(d.a); break; }
+        case D_POP: A->pop_back(); a.pop_back(); break;
+        case D_CLEAR: A->clear(); a.clear(); break;
+        case D_RESIZE: A->resize((size_t)d.a); a.resize((size_t)d.a, 0); break;
+        case D_SET: { const int p = elPos(d.a, a.size()); (*A)[p] = Tracked(d.b); a[p] = d.b; break; }
+        case D_COPY: { D c(*A, g_mm); cmp(c, a, f, "copy"); break; }
+        case D_ASSIGN_FROM_B: *A = *B; a = b; break;
+        case D_ASSIGN_TO_B: *B = *A; b = a; break;
+        case D_ASSIGN_SELF: *A = *A; events |= EV_SELF; break;
+        case D_SWAP: A->swap(*B); a.swap(b); break;
+        }
+        if (d.code != D_SWAP)
+        {
+            if (A->m_freeBlockVector.m_size < free0 && A->m_blockIndex.m_size > 0) events |= EV_REUSE;
+            if (A->m_blockIndex.m_allocation != cap0 && cap0 != 0) events |= EV_REALLOC;
+            if (A->m_blockIndex.m_size > nb0 && nb0 > 0) events |= EV_GROW;
+        }
+    }
+    static void shape(const D& x, std::string& o)
+    {
+        o += 'n'; num(o, x.m_blockIndex.m_size); o += 'c'; num(o, x.m_blockIndex.m_allocation);
+        o += 'f'; num(o, x.m_freeBlockVector.m_size); o += 'c'; num(o, x.m_freeBlockVector.m_allocation);
+        for (size_t i = 0; i < x.m_blockIndex.m_size; ++i) { o += 'b'; num(o, x.m_blockIndex.m_data[i]->m_allocation); }
+    }
+    void key(std::string& o) const
+    {
+        for (int x : a) o += (char)('0' + x); shape(*A, o); o += '/';
+        for (int x : b) o += (char)('0' + x); shape(*B, o);
+    }
+    void compare(Fail& f)
+    {
+        cmp(*A, a, f, "A"); cmp(*B, b, f, "B");
+        CHECK(f, Tracked::errors == 0, "balance", "element lifetime error: " + Tracked::firstError);
+        CHECK(f, Tracked::live == (long)(a.size() + b.size()), "balance", istr(Tracked::live) + " elements alive, the two deques hold " + istr(a.size() + b.size()));
+    }
+    void finish(Fail& f) { delete A; delete B; A = B = 0; checkWorld(f); }
+    static Sys* make() { return new DequeSys(); }
+};
+
+// =====================================================================================================================
+// XalanDOMString against std::u16string
+
+typedef std::u16string U;
+static const XalanDOMChar CH[3] = { 'a', 'b', 0xD83D };          // the third is an unpaired high surrogate
+static const char* const CHN[3] = { "a", "b", "hs" };
+static const XalanDOMChar LIT_AB[] = { 'a', 'b', 0 }, LIT_BA[] = { 'b', 'a', 0 }, LIT_A[] = { 'a', 0 }, LIT_E[] = { 0 };
+static char uch(char16_t c) { return c == 0 ? '0' : c < 128 ? (char)c : 'S'; }
+static std::string ushow(const U& u) { std::string o = "\""; for (char16_t c : u) { if (c == 0) o += "\\0"; else if (c < 128) o += (char)c; else o += "<hs>"; } return o + "\""; }
+static std::string xshow(const XalanDOMChar* p, size_t n) { U u; for (size_t i = 0; i < n; ++i) u += (char16_t)p[i]; return ushow(u); }
+static int sgn(int x) { return x < 0 ? -1 : x > 0 ? 1 : 0; }
+
+enum { X_APPEND_NC, X_APPEND_PTR_N, X_APPEND_CSTR, X_APPEND_STR, X_APPEND_SELF, X_APPEND_SUB, X_APPEND_SUB_SELF, X_PUSH_BACK, X_INSERT_NC, X_INSERT_PTR, X_INSERT_CSTR,
+       X_INSERT_STR, X_INSERT_SELF, X_INSERT_SUB_SELF, X_INSERT_SUB, X_INSERT_IT, X_INSERT_IT_N, X_INSERT_IT_RANGE, X_INSERT_IT_RANGE_SELF, X_ERASE_PC, X_ERASE_IT,
+       X_ERASE_IT_RANGE, X_ASSIGN_STR, X_ASSIGN_SELF, X_ASSIGN_CSTR, X_ASSIGN_PTR_N, X_ASSIGN_NC, X_ASSIGN_SUB, X_ASSIGN_SUB_SELF, X_ASSIGN_IT, X_ASSIGN_IT_SELF,
+       X_ASSIGN_CHAR, X_RESIZE, X_RESIZE_FILL, X_RESERVE, X_CLEAR, X_SWAP, X_SUBSTR_TO_B, X_SUBSTR_SELF, X_COPY, X_COPY_SUB, X_SET_CHAR, X_RESET };
+static const size_t NPOS = (size_t)-1;
+
+struct StrSys : Sys
+{
+    typedef XalanDOMString S;
+    S* A; S* B;
+    U a, b;
+    static std::vector<OpDesc>& table()
+    {
+        static std::vector<OpDesc> t;
+        if (t.empty())
+        {
+            t.push_back({ "append_n_char(0,a)", X_APPEND_NC, 0, 0, 0 });
+            t.push_back({ "append_n_char(1,a)", X_APPEND_NC, 1, 0, 0 });
+            t.push_back({ "append_n_char(1,hs)", X_APPEND_NC, 1, 2, 0 });
+            t.push_back({ "append_n_char(2,b)", X_APPEND_NC, 2, 1, 0 });
+            t.push_back({ "append_ptr_n(ab,2)", X_APPEND_PTR_N, 2, 0, 0 });
+            t.push_back({ "append_ptr_n(ab,1)", X_APPEND_PTR_N, 1, 0, 0 });
+            t.push_back({ "append_ptr_n(ab,0)", X_APPEND_PTR_N, 0, 0, 0 });
+            t.push_back({ "append_cstr(ba)", X_APPEND_CSTR, 0, 0, 0 });
+            t.push_back({ "append_cstr()", X_APPEND_CSTR, 1, 0, 0 });
+            t.push_back({ "append_str(B)", X_APPEND_STR, 0, 0, 0 });
+            t.push_back({ "append_self", X_APPEND_SELF, 0, 0, 0 });
+            t.push_back({ "append_sub(B,0,npos)", X_APPEND_SUB, 0, -1, 0 });
+            t.push_back({ "append_sub(B,1,1)", X_APPEND_SUB, 1, 1, 0 });
+            t.push_back({ "append_sub(B,0,1)", X_APPEND_SUB, 0, 1, 0 });
+            t.push_back({ "append_sub_self(mid,npos)", X_APPEND_SUB_SELF, 0, 0, 0 });
+            t.push_back({ "push_back(b)", X_PUSH_BACK, 1, 0, 0 });
+            for (int p = 0; p < 3; ++p) for (int n = 1; n <= 2; ++n) t.push_back({ std::string("insert_n_char(") + PN[p] + "," + istr(n) + ",b)", X_INSERT_NC, p, n, 1 });
+            for (int p = 0; p < 3; ++p) t.push_back({ std::string("insert_ptr_n(") + PN[p] + ",ab,2)", X_INSERT_PTR, p, 2, 0 });
+            t.push_back({ "insert_cstr(mid,a)", X_INSERT_CSTR, 1, 0, 0 });
+            for (int p = 0; p < 3; ++p) t.push_back({ std::string("insert_str(") + PN[p] + ",B)", X_INSERT_STR, p, 0, 0 });
+            for (int p = 0; p < 3; ++p) t.push_back({ std::string("insert_self(") + PN[p] + ")", X_INSERT_SELF, p, 0, 0 });
+            t.push_back({ "insert_sub_self(begin,mid,rest)", X_INSERT_SUB_SELF, 0, 0, 0 });
+            t.push_back({ "insert_sub(mid,B,1,1)", X_INSERT_SUB, 1, 0, 0 });
+            for (int p = 0; p < 3; ++p) t.push_back({ std::string("insert_iter_char(") + PN[p] + ",a)", X_INSERT_IT, p, 0, 0 });
+            t.push_back({ "insert_iter_n_char(mid,2,hs)", X_INSERT_IT_N, 1, 2, 2 });
+            t.push_back({ "insert_iter_range(mid,B)", X_INSERT_IT_RANGE, 1, 0, 0 });
+            t.push_back({ "insert_iter_range_self(begin,mid,end)", X_INSERT_IT_RANGE_SELF, 0, 0, 0 });
+            t.push_back({ "erase_all", X_ERASE_PC, 0, 0, 0 });
+            t.push_back({ "erase(0,1)", X_ERASE_PC, 1, 0, 0 });
+            t.push_back({ "erase(mid,1)", X_ERASE_PC, 2, 0, 0 });
+            t.push_back({ "erase(mid,npos)", X_ERASE_PC, 3, 0, 0 });
+            t.push_back({ "erase(last,1)", X_ERASE_PC, 4, 0, 0 });
+            t.push_back({ "erase(0,length)", X_ERASE_PC, 5, 0, 0 });
+            for (int p = 0; p < 3; ++p) t.push_back({ std::string("erase_iter(") + EN[p] + ")", X_ERASE_IT, p, 0, 0 });
+            t.push_back({ "erase_iter_range(begin,mid)", X_ERASE_IT_RANGE, 0, 1, 0 });
+            t.push_back({ "erase_iter_range(mid,end)", X_ERASE_IT_RANGE, 1, 2, 0 });
+            t.push_back({ "erase_iter_range(begin,end)", X_ERASE_IT_RANGE, 0, 2, 0 });
+            t.push_back({ "assign_str(B)", X_ASSIGN_STR, 0, 0, 0 });
+            t.push_back({ "assign_self", X_ASSIGN_SELF, 0, 0, 0 });
+            t.push_back({ "assign_cstr(ab)", X_ASSIGN_CSTR, 0, 0, 0 });
+            t.push_back({ "assign_ptr_n(ab,1)", X_ASSIGN_PTR_N, 1, 0, 0 });
+            t.push_back({ "assign_n_char(2,a)", X_ASSIGN_NC, 2, 0, 0 });
+            t.push_back({ "assign_n_char(0,a)", X_ASSIGN_NC, 0, 0, 0 });
+            t.push_back({ "assign_sub(B,1,1)", X_ASSIGN_SUB, 1, 1, 0 });
+            t.push_back({ "assign_sub_self(0,mid)", X_ASSIGN_SUB_SELF, 0, 0, 0 });
+            t.push_back({ "assign_sub_self(mid,rest)", X_ASSIGN_SUB_SELF, 1, 0, 0 });
+            t.push_back({ "assign_sub_self(0,length)", X_ASSIGN_SUB_SELF, 2, 0, 0 });
+            t.push_back({ "assign_iter(B)", X_ASSIGN_IT, 0, 0, 0 });
+            t.push_back({ "assign_iter_self(mid,end)", X_ASSIGN_IT_SELF, 0, 0, 0 });
+            t.push_back({ "assign_char(b)", X_ASSIGN_CHAR, 1, 0, 0 });
+            for (int n : { 0, 1, 3 }) t.push_back({ "resize(" + istr(n) + ")", X_RESIZE, n, 0, 0 });
+            for (int n : { 0, 2, 4 }) t.push_back({ "resize_fill(" + istr(n) + ",a)", X_RESIZE_FILL, n, 0, 0 });
+            t.push_back({ "reserve(0)", X_RESERVE, 0, 0, 0 });
+            t.push_back({ "reserve(5)", X_RESERVE, 5, 0, 0 });
+            t.push_back({ "clear", X_CLEAR, 0, 0, 0 });
+            t.push_back({ "swap", X_SWAP, 0, 0, 0 });
+            t.push_back({ "substr_to_B(0,npos)", X_SUBSTR_TO_B, 0, 0, 0 });
+            t.push_back({ "substr_to_B(mid,npos)", X_SUBSTR_TO_B, 1, 0, 0 });
+            t.push_back({ "substr_to_B(mid,1)", X_SUBSTR_TO_B, 2, 0, 0 });
+            t.push_back({ "substr_to_B(0,0)", X_SUBSTR_TO_B, 3, 0, 0 });
+            t.push_back({ "substr_self(mid,rest)", X_SUBSTR_SELF, 0, 0, 0 });
+            t.push_back({ "copy_construct", X_COPY, 0, 0, 0 });
+            t.push_back({ "copy_construct_sub(mid,npos)", X_COPY_SUB, 0, 0, 0 });
+            t.push_back({ "copy_construct_sub(0,1)", X_COPY_SUB, 1, 0, 0 });
+            t.push_back({ "set_char(mid,b)", X_SET_CHAR, 1, 0, 0 });
+            t.push_back({ "reset(ab)", X_RESET, 0, 0, 0 });
+        }
+        return t;
+    }
+    StrSys() { A = new S(g_mm); B = new S(g_mm); }
+    const std::vector<OpDesc>& ops() const { return table(); }
+    // preconditions follow the library's own assertions (position < length for substring sources, ranges inside the string)
+    bool enabled(int op) const
+    {
+        const OpDesc& d = table()[op];
+        const size_t n = a.size(), nb = b.size();
+        switch (d.code)
+        {
+        case X_APPEND_SUB: return (size_t)d.a < nb && (d.b < 0 || (size_t)(d.a + d.b) <= nb);
+        case X_APPEND_SUB_SELF: case X_INSERT_SUB_SELF: case X_INSERT_IT_RANGE_SELF: case X_ASSIGN_IT_SELF: case X_SUBSTR_SELF: return n >= 2;
+        case X_INSERT_NC: case X_INSERT_PTR: case X_INSERT_STR: case X_INSERT_SELF: case X_INSERT_IT: return insPos(d.a, n) >= 0 && (d.code != X_INSERT_SELF || n > 0);
+        case X_INSERT_CSTR: case X_INSERT_IT_N: case X_INSERT_IT_RANGE: return n >= 2;
+        case X_INSERT_SUB: return n >= 2 && nb >= 2;
+        case X_ERASE_PC: return d.a == 0 || d.a == 5 ? true : d.a == 1 ? n >= 1 : d.a == 4 ? n >= 2 : n >= 3;
+        case X_ERASE_IT: return elPos(d.a, n) >= 0;
+        case X_ERASE_IT_RANGE: return n >= 1 && (d.a == 0 && d.b == 2 ? true : n >= 2);
+        case X_ASSIGN_SUB: return nb >= 2;
+        case X_ASSIGN_SUB_SELF: return d.a == 2 ? n >= 1 : n >= 2;
+        case X_SUBSTR_TO_B: return d.a == 0 || d.a == 3 ? n >= 1 : n >= 2;    // assign(src,pos,count) asserts pos < src.size()
+        case X_COPY_SUB: return d.a == 0 ? n >= 2 : n >= 1;
+        case X_SET_CHAR: return n >= 1;
+        default: return true;
+        }
+    }
+    static void cmp(S& x, const U& m, Fail& f, const char* which)
+    {
+        const std::string w(which);
+        const S& cx = x;
+        // structural invariants first (what XalanDOMString::invariants() asserts), read from the fields
+        if (x.m_data.m_size == 0) CHECK(f, x.m_size == 0, "invariant", w + ": empty buffer but m_size " + istr(x.m_size));
+        else
+        {
+            CHECK(f, x.m_size == x.m_data.m_size - 1, "invariant", w + ": m_size " + istr(x.m_size) + " but the buffer holds " + istr(x.m_data.m_size) + " units (length+1 expected); model length " + istr(m.size()));
+            CHECK(f, x.m_data.m_data[x.m_data.m_size - 1] == 0, "invariant", w + ": the buffer does not end with the terminator");
+        }
+        if (f.bad) return;
+        CHECK(f, x.length() == m.size() && x.size() == m.size(), "size", w + ": length() " + istr(x.length()) + " model " + istr(m.size()) + " " + ushow(m));
+        CHECK(f, x.empty() == m.empty(), "size", w + ": empty() disagrees");
+        if (f.bad) return;
+        const XalanDOMChar* p = cx.c_str();
+        CHECK(f, p[m.size()] == 0, "invariant", w + ": c_str()[length()] is not the terminator");
+        CHECK(f, memcmp(p, m.data(), m.size() * sizeof(XalanDOMChar)) == 0, "contents", w + ": c_str() is " + xshow(p, m.size()) + " model " + ushow(m));
+        if (f.bad) return;
+        CHECK(f, cx.data() == p, "return", w + ": data() != c_str()");
+        CHECK(f, (size_t)(x.end() - x.begin()) == m.size() && (size_t)(cx.end() - cx.begin()) == m.size(), "size", w + ": end()-begin() disagrees with length()");
+        bool same = true; size_t i = 0;
+        for (S::iterator it = x.begin(); it != x.end(); ++it, ++i) if (*it != m[i]) same = false;
+        i = m.size();
+        for (S::const_reverse_iterator r = cx.rbegin(); r != cx.rend(); ++r) { if (i == 0) { same = false; break; } --i; if (*r != m[i]) same = false; }
+        CHECK(f, same && i == 0, "contents", w + ": forward/reverse iteration disagrees with the model");
+        for (i = 0; i < m.size(); ++i) CHECK(f, x[i] == m[i] && cx[i] == m[i] && cx.at(i) == m[i], "contents", w + ": operator[]/at(" + istr(i) + ") disagrees");
+        if (!m.empty()) CHECK(f, x.capacity() >= m.size(), "invariant", w + ": capacity() below length()");
+    }
+    void apply(int op, Fail& f)
+    {
+        const OpDesc& d = table()[op];
+        const size_t n = a.size(), nb = b.size(), mid = n / 2;
+        const size_t cap0 = A->m_data.m_allocation; const XalanDOMChar* data0 = A->m_data.m_data;
+        switch (d.code)
+        {
+        case X_APPEND_NC: A->append((S::size_type)d.a, CH[d.b]); a.append((size_t)d.a, (char16_t)CH[d.b]); break;
+        case X_APPEND_PTR_N: A->append(LIT_AB, (S::size_type)d.a); a.append((const char16_t*)LIT_AB, (size_t)d.a); break;
+        case X_APPEND_CSTR: { const XalanDOMChar* s = d.a == 0 ? LIT_BA : LIT_E; A->append(s); a.append((const char16_t*)s); break; }
+        case X_APPEND_STR: A->append(*B); a.append(b); break;
+        case X_APPEND_SELF: A->append(*A); a.append(U(a)); events |= EV_SELF; break;
+        case X_APPEND_SUB: A->append(*B, (S::size_type)d.a, d.b < 0 ? S::npos : (S::size_type)d.b); a.append(b, (size_t)d.a, d.b < 0 ? U::npos : (size_t)d.b); break;
+        case X_APPEND_SUB_SELF: A->append(*A, (S::size_type)mid, S::npos); a.append(U(a), mid, U::npos); events |= EV_SELF; break;
+        case X_PUSH_BACK: A->push_back(CH[d.a]); a.push_back((char16_t)CH[d.a]); break;
+        case X_INSERT_NC: { const size_t p = insPos(d.a, n); A->insert((S::size_type)p, (S::size_type)d.b, CH[d.c]); a.insert(p, (size_t)d.b, (char16_t)CH[d.c]); break; }
+        case X_INSERT_PTR: { const size_t p = insPos(d.a, n); A->insert((S::size_type)p, LIT_AB, (S::size_type)d.b); a.insert(p, (const char16_t*)LIT_AB, (size_t)d.b); break; }
+        case X_INSERT_CSTR: A->insert((S::size_type)mid, LIT_A); a.insert(mid, (const char16_t*)LIT_A); break;
+        case X_INSERT_STR: { const size_t p = insPos(d.a, n); A->insert((S::size_type)p, *B); a.insert(p, b); break; }
+        case X_INSERT_SELF: { const size_t p = insPos(d.a, n); A->insert((S::size_type)p, *A); a.insert(p, U(a)); events |= EV_SELF; break; }
+        case X_INSERT_SUB_SELF: A->insert(0, *A, (S::size_type)mid, (S::size_type)(n - mid)); a.insert(0, U(a), mid, n - mid); events |= EV_SELF; break;
+        case X_INSERT_SUB: A->insert((S::size_type)mid, *B, 1, 1); a.insert(mid, b, 1, 1); break;
+        case X_INSERT_IT:
+        {
+            const size_t p = insPos(d.a, n);
+            S::iterator r = A->insert(A->begin() + p, CH[d.b]);
+            a.insert(a.begin() + p, (char16_t)CH[d.b]);
+            CHECK(f, r == A->begin() + p, "return", "insert(iterator,char) returned begin()+" + istr(r - A->begin()) + ", expected begin()+" + istr(p));
+            break;
+        }
+        case X_INSERT_IT_N: A->insert(A->begin() + mid, (S::size_type)d.b, CH[d.c]); a.insert(a.begin() + mid, (size_t)d.b, (char16_t)CH[d.c]); break;
+        case X_INSERT_IT_RANGE: A->insert(A->begin() + mid, B->begin(), B->end()); a.insert(a.begin() + mid, b.begin(), b.end()); break;
+        case X_INSERT_IT_RANGE_SELF: { A->insert(A->begin(), A->begin() + mid, A->end()); const U t(a, mid); a.insert(a.begin(), t.begin(), t.end()); events |= EV_SELF; break; }
+        case X_ERASE_PC:
+        {
+            size_t p = 0, c = 0; bool np = false;
+            switch (d.a) { case 0: np = true; break; case 1: c = 1; break; case 2: p = mid; c = 1; break; case 3: p = mid; np = true; break; case 4: p = n - 1; c = 1; break; case 5: c = n; break; }
+            if (d.a == 0) A->erase(); else A->erase((S::size_type)p, np ? S::npos : (S::size_type)c);
+            a.erase(p, np ? U::npos : c);
+            break;
+        }
+        case X_ERASE_IT:
+        {
+            const size_t p = elPos(d.a, n);
+            S::iterator r = A->erase(A->begin() + p);
+            a.erase(a.begin() + p);
+            CHECK(f, r == A->begin() + p, "return", "erase(iterator) returned a wrong iterator");
+            break;
+        }
+        case X_ERASE_IT_RANGE:
+        {
+            const size_t p = d.a == 0 ? 0 : mid, q = d.b == 1 ? mid : n;
+            S::iterator r = A->erase(A->begin() + p, A->begin() + q);
+            a.erase(a.begin() + p, a.begin() + q);
+            CHECK(f, r == A->begin() + p, "return", "erase(first,last) returned a wrong iterator");
+            break;
+        }
+        case X_ASSIGN_STR: A->assign(*B); a.assign(b); break;
+        case X_ASSIGN_SELF: *A = *A; events |= EV_SELF; break;
+        case X_ASSIGN_CSTR: A->assign(LIT_AB); a.assign((const char16_t*)LIT_AB); break;
+        case X_ASSIGN_PTR_N: A->assign(LIT_AB, (S::size_type)d.a); a.assign((const char16_t*)LIT_AB, (size_t)d.a); break;
+        case X_ASSIGN_NC: A->assign((S::size_type)d.a, CH[d.b]); a.assign((size_t)d.a, (char16_t)CH[d.b]); break;
+        case X_ASSIGN_SUB: A->assign(*B, 1, 1); a.assign(b, 1, 1); break;
+        case X_ASSIGN_SUB_SELF:
+        {
+            const size_t p = d.a == 1 ? mid : 0, c = d.a == 0 ? mid : d.a == 1 ? n - mid : n;
+            A->assign(*A, (S::size_type)p, (S::size_type)c); a.assign(U(a), p, c); events |= EV_SELF;
+            break;
+        }
+        case X_ASSIGN_IT: A->assign(B->begin(), B->end()); a.assign(b.begin(), b.end()); break;
+        case X_ASSIGN_IT_SELF: { A->assign(A->begin() + mid, A->end()); const U t(a, mid); a = t; events |= EV_SELF; break; }
+        case X_ASSIGN_CHAR: *A = CH[d.a]; a.assign(1, (char16_t)CH[d.a]); break;
+        case X_RESIZE: A->resize((S::size_type)d.a); a.resize((size_t)d.a); break;
+        case X_RESIZE_FILL: A->resize((S::size_type)d.a, CH[0]); a.resize((size_t)d.a, (char16_t)CH[0]); break;
+        case X_RESERVE: A->reserve((S::size_type)d.a); if (d.a) CHECK(f, A->capacity() >= (size_t)d.a, "return", "capacity() below the reserved amount"); break;
+        case X_CLEAR: A->clear(); a.clear(); break;
+        case X_SWAP: A->swap(*B); a.swap(b); break;
+        case X_SUBSTR_TO_B:
+        {
+            size_t p = 0, c = 0; bool np = false;
+            switch (d.a) { case 0: np = true; break; case 1: p = mid; np = true; break; case 2: p = mid; c = 1; break; case 3: break; }
+            S& r = A->substr(*B, (S::size_type)p, np ? S::npos : (S::size_type)c);
+            b = a.substr(p, np ? U::npos : c);
+            CHECK(f, &r == B, "return", "substr did not return its output argument");
+            break;
+        }
+        case X_SUBSTR_SELF: A->substr(*A, (S::size_type)mid, (S::size_type)(n - mid)); a = a.substr(mid, n - mid); events |= EV_SELF; break;
+        case X_COPY:
+        {
+            S c(*A, g_mm);
+            cmp(c, a, f, "copy");
+            CHECK(f, c == *A && !(c != *A) && c.compare(*A) == 0 && S::equals(c, *A) && c.hash() == A->hash(), "return", "a copy does not compare equal to its source");
+            break;
+        }
+        case X_COPY_SUB:
+        {
+            if (d.a == 0) { S c(*A, g_mm, (S::size_type)mid, S::npos); cmp(c, a.substr(mid), f, "copy"); }
+            else { S c(*A, g_mm, 0, 1); cmp(c, a.substr(0, 1), f, "copy"); }
+            break;
+        }
+        case X_SET_CHAR: (*A)[mid] = CH[d.a]; a[mid] = (char16_t)CH[d.a]; break;
+        case X_RESET: A->reset(g_mm, LIT_AB); a.assign((const char16_t*)LIT_AB); break;
+        }
+        (void)nb;
+        if (d.code != X_SWAP && cap0 != 0 && (A->m_data.m_allocation != cap0 || A->m_data.m_data != data0)) events |= EV_REALLOC;
+        if (d.code != X_SWAP && A->m_data.m_allocation != cap0) events |= EV_GROW;
+    }
+    void key(std::string& o) const
+    {
+        for (char16_t c : a) o += uch(c); o += '|'; num(o, A->m_data.m_size); o += 'c'; num(o, A->m_data.m_allocation); o += '/';
+        for (char16_t c : b) o += uch(c); o += '|'; num(o, B->m_data.m_size); o += 'c'; num(o, B->m_data.m_allocation);
+    }
+    void compare(Fail& f)
+    {
+        cmp(*A, a, f, "A"); cmp(*B, b, f, "B");
+        if (f.bad) return;
+        const S& ca = *A; const S& cb = *B;
+        CHECKO(f, sgn(ca.compare(cb)) == sgn(a.compare(b)), "compare", "return", "compare(B) is " + istr(ca.compare(cb)) + ", model sign " + istr(sgn(a.compare(b))) + " for " + ushow(a) + " vs " + ushow(b));
+        CHECKO(f, sgn(ca.compare(cb.c_str())) == sgn(a.compare(b.c_str())), "compare", "return", "compare(const XalanDOMChar*) disagrees for " + ushow(a) + " vs " + ushow(b));
+        CHECKO(f, S::equals(ca, cb) == (a == b) && (ca == cb) == (a == b) && (ca != cb) == (a != b), "equals", "return", "equals()/operator== disagree for " + ushow(a) + " vs " + ushow(b));
+        if (a == b) CHECKO(f, ca.hash() == cb.hash(), "hash", "return", "equal strings hash differently");
+        if (a.size() >= 1 && b.size() >= 1)
+        {
+            const size_t p = a.size() / 2, c = a.size() - p;
+            CHECKO(f, sgn(ca.compare((S::size_type)p, (S::size_type)c, cb)) == sgn(a.compare(p, c, b)), "compare_sub", "return", "compare(pos,count,B) disagrees for " + ushow(a) + " vs " + ushow(b));
+            CHECKO(f, sgn(ca.compare(0, 1, cb, (S::size_type)(b.size() - 1), 1)) == sgn(a.compare(0, 1, b, b.size() - 1, 1)), "compare_sub", "return", "compare(pos1,n1,B,pos2,n2) disagrees for " + ushow(a) + " vs " + ushow(b));
+        }
+    }
+    void finish(Fail& f) { delete A; delete B; A = B = 0; checkWorld(f); }
+    std::string sigSuffix() const { return (a.find(char16_t(0)) != U::npos || b.find(char16_t(0)) != U::npos) ? "+embedded_nul" : ""; }
+    static Sys* make() { return new StrSys(); }
+};
+
+// =====================================================================================================================
+// XalanDOMStringPool (+ XalanDOMStringHashTable): block size 2, bucket count 2, bucket size 1
+
+enum { P_GET_STR, P_GET_PTR_N, P_GET_CSTR, P_CLEAR };
+struct PoolSys : Sys
+{
+    XalanDOMStringPool* P;
+    std::vector<std::pair<U, const XalanDOMString*> > m;     // insertion order
+    static const U& word(int i) { static const U w[5] = { U(), U(u"a"), U(u"b"), U(u"ab"), U(u"ba") }; return w[i]; }
+    static std::vector<OpDesc>& table()
+    {
+        static std::vector<OpDesc> t;
+        if (t.empty())
+        {
+            static const char* n[5] = { "''", "a", "b", "ab", "ba" };
+            for (int i = 0; i < 5; ++i) t.push_back({ std::string("get_str(") + n[i] + ")", P_GET_STR, i, 0, 0 });
+            for (int i = 1; i < 4; ++i) t.push_back({ std::string("get_ptr_n(") + n[i] + ")", P_GET_PTR_N, i, 0, 0 });
+            t.push_back({ "get_cstr(ba)", P_GET_CSTR, 4, 0, 0 });
+            t.push_back({ "clear", P_CLEAR, 0, 0, 0 });
+        }
+        return t;
+    }
+    PoolSys() { P = new XalanDOMStringPool(g_mm, 2, 2, 1); }
+    const std::vector<OpDesc>& ops() const { return table(); }
+    bool enabled(int) const { return true; }
+    void apply(int op, Fail& f)
+    {
+        const OpDesc& d = table()[op];
+        if (d.code == P_CLEAR) { P->clear(); m.clear(); return; }
+        const U& w = word(d.a);
+        const size_t blocks0 = P->m_stringAllocator.getBlockCount();
+        const XalanDOMString* r = 0;
+        if (d.code == P_GET_STR) { XalanDOMString s((const XalanDOMChar*)w.c_str(), g_static); r = &P->get(s); }
+        else if (d.code == P_GET_PTR_N) { U buf = w + u"zz"; r = &P->get((const XalanDOMChar*)buf.data(), (XalanDOMString::size_type)w.size()); }   // not terminated at the length
+        else r = &P->get((const XalanDOMChar*)w.c_str());
+        CHECK(f, r->length() == w.size() && memcmp(r->c_str(), w.data(), w.size() * 2) == 0, "return", "get(" + ushow(w) + ") returned " + xshow(r->c_str(), r->length()));
+        if (w.empty()) return;
+        size_t i = 0;
+        for (; i < m.size(); ++i) if (m[i].first == w) break;
+        if (i < m.size()) CHECK(f, r == m[i].second, "return", "get(" + ushow(w) + ") returned a different object for a string that is already pooled");
+        else
+        {
+            for (auto& e : m) CHECK(f, e.second != r, "return", "get(" + ushow(w) + ") returned the object of another pooled string");
+            m.push_back(std::make_pair(w, r));
+            if (P->m_stringAllocator.getBlockCount() > blocks0 && blocks0 > 0) events |= EV_GROW;
+        }
+    }
+    void key(std::string& o) const
+    {
+        for (auto& e : m) { for (char16_t c : e.first) o += uch(c); o += ','; }
+        o += '|'; num(o, P->m_stringAllocator.getBlockCount());
+        const XalanDOMStringHashTable& h = P->m_hashTable;
+        for (size_t i = 0; i < h.m_buckets.m_size; ++i) { o += 'b'; num(o, h.m_buckets.m_data[i].m_size); o += 'c'; num(o, h.m_buckets.m_data[i].m_allocation); }
+    }
+    void compare(Fail& f)
+    {
+        CHECK(f, P->size() == m.size(), "size", "size() " + istr(P->size()) + " model " + istr(m.size()));
+        CHECK(f, P->getHashTable().size() == m.size(), "size", "hash table size() " + istr(P->getHashTable().size()) + " model " + istr(m.size()));
+        XalanDOMStringHashTable::BucketCountsType bc(g_mm);
+        P->getHashTable().getBucketCounts(bc);
+        size_t sum = 0; for (size_t i = 0; i < bc.size(); ++i) sum += bc[i];
+        CHECK(f, bc.size() == 2 && sum == m.size(), "size", "bucket counts sum to " + istr(sum) + ", model " + istr(m.size()));
+        for (auto& e : m)
+        {
+            CHECK(f, e.second->length() == e.first.size() && memcmp(e.second->c_str(), e.first.data(), e.first.size() * 2) == 0, "contents", "pooled string " + ushow(e.first) + " changed to " + xshow(e.second->c_str(), e.second->length()));
+            const XalanDOMString* r = P->getHashTable().find((const XalanDOMChar*)e.first.c_str());
+            CHECK(f, r == e.second, "find", "hash table find(" + ushow(e.first) + ") does not return the pooled object");
+        }
+        for (int i = 1; i < 5; ++i)
+        {
+            bool in = false; for (auto& e : m) if (e.first == word(i)) in = true;
+            if (!in) CHECK(f, P->getHashTable().find((const XalanDOMChar*)word(i).c_str()) == 0, "find", "hash table finds " + ushow(word(i)) + " which is not pooled");
+        }
+    }
+    void finish(Fail& f) { delete P; P = 0; checkWorld(f); }
+    static Sys* make() { return new PoolSys(); }
+};
+
+// =====================================================================================================================
+// XalanBitmap (10 bits = 2 units), release semantics of the header
+
+enum { B_SET, B_CLEAR, B_TOGGLE, B_CLEARALL };
+struct BitmapSys : Sys
+{
+    XalanBitmap* P;
+    bool m[10];
+    static std::vector<OpDesc>& table()
+    {
+        static std::vector<OpDesc> t;
+        if (t.empty())
+        {
+            for (int b : { 0, 7, 8, 9 }) { t.push_back({ "set(" + istr(b) + ")", B_SET, b, 0, 0 }); t.push_back({ "clear(" + istr(b) + ")", B_CLEAR, b, 0, 0 }); t.push_back({ "toggle(" + istr(b) + ")", B_TOGGLE, b, 0, 0 }); }
+            t.push_back({ "clearAll", B_CLEARALL, 0, 0, 0 });
+        }
+        return t;
+    }
+    BitmapSys() { P = new XalanBitmap(g_mm, 10); for (bool& x : m) x = false; }
+    const std::vector<OpDesc>& ops() const { return table(); }
+    bool enabled(int) const { return true; }
+    void apply(int op, Fail&)
+    {
+        const OpDesc& d = table()[op];
+        switch (d.code)
+        {
+        case B_SET: P->set(d.a); m[d.a] = true; break;
+        case B_CLEAR: P->clear(d.a); m[d.a] = false; break;
+        case B_TOGGLE: P->toggle(d.a); m[d.a] = !m[d.a]; break;
+        case B_CLEARALL: P->clearAll(); for (bool& x : m) x = false; break;
+        }
+    }
+    void key(std::string& o) const { for (bool x : m) o += x ? '1' : '0'; o += '|'; for (size_t i = 0; i < P->m_bitmap.m_size; ++i) num(o, (unsigned char)P->m_bitmap.m_data[i]), o += ','; }
+    void compare(Fail& f)
+    {
+        CHECK(f, P->getSize() == 10, "size", "getSize() " + istr(P->getSize()));
+        for (int b = 0; b < 10; ++b) CHECK(f, P->isSet(b) == m[b], "contents", "isSet(" + istr(b) + ") is " + istr(P->isSet(b)) + ", model " + istr(m[b]));
+    }
+    void finish(Fail& f) { delete P; P = 0; checkWorld(f); }
+    static Sys* make() { return new BitmapSys(); }
+};
+
+// =====================================================================================================================
+// XalanObjectCache<Tracked> (default configuration: no busy list)
+
+enum { C_GET, C_RELEASE, C_RESET };
+struct CacheSys : Sys
+{
+    typedef XalanObjectCache<Tracked> C;
+    C* P;
+    std::vector<Tracked*> avail, out;
+    std::vector<Tracked*> born;    // creation order, for a canonical naming of the objects
+    static std::vector<OpDesc>& table()
+    {
+        static std::vector<OpDesc> t;
+        if (t.empty())
+        {
+            t.push_back({ "get", C_GET, 0, 0, 0 });
+            t.push_back({ "release(first)", C_RELEASE, 0, 0, 0 });
+            t.push_back({ "release(last)", C_RELEASE, 2, 0, 0 });
+            t.push_back({ "reset", C_RESET, 0, 0, 0 });
+        }
+        return t;
+    }
+    CacheSys() { P = new C(g_mm, 1); }
+    const std::vector<OpDesc>& ops() const { return table(); }
+    bool enabled(int op) const
+    {
+        const OpDesc& d = table()[op];
+        if (d.code == C_GET) return out.size() < 3;
+        if (d.code == C_RELEASE) return elPos(d.a, out.size()) >= 0;
+        return true;
+    }
+    void apply(int op, Fail& f)
+    {
+        const OpDesc& d = table()[op];
+        switch (d.code)
+        {
+        case C_GET:
+        {
+            const long c0 = Tracked::ctors;
+            Tracked* r = P->get();
+            if (!avail.empty())
+            {
+                CHECK(f, r == avail.back(), "return", "get() did not return the most recently released object");
+                CHECK(f, Tracked::ctors == c0, "balance", "get() constructed an object although one was available");
+                avail.pop_back(); events |= EV_REUSE;
+            }
+            else
+            {
+                CHECK(f, Tracked::ctors == c0 + 1, "balance", "get() on an empty cache constructed " + istr(Tracked::ctors - c0) + " objects");
+                CHECK(f, std::find(born.begin(), born.end(), r) == born.end(), "return", "get() returned an object that is already handed out");
+                born.push_back(r);
+            }
+            CHECK(f, r != 0 && r->magic == Tracked::ALIVE, "return", "get() returned an object that is not alive");
+            out.push_back(r);
+            break;
+        }
+        case C_RELEASE:
+        {
+            const int p = elPos(d.a, out.size());
+            const bool r = P->release(out[p]);
+            CHECK(f, r, "return", "release() returned false");
+            avail.push_back(out[p]); out.erase(out.begin() + p);
+            break;
+        }
+        case C_RESET: P->reset(); break;
+        }
+    }
+    void key(std::string& o) const
+    {
+        for (Tracked* t : avail) num(o, std::find(born.begin(), born.end(), t) - born.begin()); o += '/';
+        for (Tracked* t : out) num(o, std::find(born.begin(), born.end(), t) - born.begin());
+        o += 'c'; num(o, P->m_availableList.m_allocation);
+    }
+    void compare(Fail& f)
+    {
+        CHECK(f, P->m_availableList.size() == avail.size(), "size", "the cache holds " + istr(P->m_availableList.size()) + " available objects, model " + istr(avail.size()));
+        for (size_t i = 0; i < avail.size() && !f.bad; ++i) CHECK(f, P->m_availableList[i] == avail[i], "contents", "available list differs from the model at " + istr(i));
+        CHECK(f, Tracked::live == (long)born.size() && Tracked::errors == 0, "balance", istr(Tracked::live) + " objects alive, " + istr(born.size()) + " created");
+    }
+    void finish(Fail& f)
+    {
+        for (Tracked* t : out) XalanDestroy(g_mm, t);    // objects still handed out belong to the caller
+        delete P; P = 0; checkWorld(f);
+    }
+    static Sys* make() { return new CacheSys(); }
+};
+
 //@@SYSTEMS@@
 
 // =====================================================================================================================
@@ -644,7 +1599,7 @@ struct Viol { uint32_t level, parent; int op; std::string sig, detail; };
 
 struct Totals
 {
-    long long states = 0, transitions = 0, comparisons = 0, nontrivial = 0, fatals = 0, disabled = 0, prunedAfterViolation = 0, violRaw = 0;
+    long long states = 0, transitions = 0, comparisons = 0, nontrivial = 0, fatals = 0, disabled = 0, prunedAfterViolation = 0, violRaw = 0, evtTransitions = 0, skippedOff = 0, opsOff = 0;
     int maxDepth = 0;
 };
 
@@ -680,6 +1635,8 @@ struct Search
     int completed = 0;
     Slot* slots;
     int nopsCached = 0;
+    std::vector<char> opOff;                 // ops switched off after repeated fatal outcomes (the run is then not exhaustive)
+    std::map<std::string, int> fatalBySig;
 
     Search(const Container& cc, int d, int w, double dl) : c(cc), depth(d), W(w), deadline(dl)
     {
@@ -693,7 +1650,7 @@ struct Search
         const uint8_t* h = level ? &fr[(size_t)si * level] : (const uint8_t*)"";
         slots[w].state = si; slots[w].op = -1;
         alarm(30);
-        uint32_t nTrans = 0, nCmp = 0, nDis = 0, nPruned = 0;
+        uint32_t nTrans = 0, nCmp = 0, nDis = 0, nPruned = 0, nEvt = 0, nOff = 0;
         std::string recs;
         // 1. replay the state itself: same key as when it was first built? balances at destruction?
         std::vector<char> en;
@@ -710,7 +1667,7 @@ struct Search
             if (!f.bad) s->finish(f);
             if (f.bad)
             {
-                recs += 'V'; put<int32_t>(recs, level ? h[level - 1] : -1); putStr(recs, f.kind); putStr(recs, f.msg); put<uint8_t>(recs, 0);
+                recs += 'V'; put<int32_t>(recs, level ? h[level - 1] : -1); putStr(recs, f.kind); putStr(recs, f.msg); put<uint8_t>(recs, 0); putStr(recs, "");
             }
             else delete s;
         }
@@ -719,13 +1676,16 @@ struct Search
         {
             if (!en[o]) { ++nDis; continue; }
             if (skip.count(o)) continue;
+            if (opOff[o]) { ++nOff; continue; }
             slots[w].op = o;
             resetWorld();
             Sys* s = c.make();
             Fail f;
             for (int i = 0; i < level; ++i) s->apply(h[i], f);
-            s->events = frev[si];
+            s->events = 0;
             s->apply(o, f);
+            if (s->events) ++nEvt;
+            s->events |= frev[si];
             ++nTrans;
             std::string k;
             if (!f.bad) { s->key(k); s->compare(f); ++nCmp; }
@@ -733,6 +1693,7 @@ struct Search
             if (f.bad)
             {
                 recs += 'V'; put<int32_t>(recs, o); putStr(recs, f.kind); putStr(recs, f.msg); put<uint8_t>(recs, 1);
+                putStr(recs, (f.obs.empty() ? opBase(s->ops()[o].name) : f.obs) + s->sigSuffix());
                 ++nPruned;
                 continue;     // the object may be damaged: it is abandoned, the state is not expanded
             }
@@ -743,7 +1704,7 @@ struct Search
             recs += 'C'; put<uint8_t>(recs, (uint8_t)o); put<uint8_t>(recs, (uint8_t)ev); put<H128>(recs, hk);
         }
         alarm(0);
-        out += 'S'; put<uint32_t>(out, si); put<uint32_t>(out, nTrans); put<uint32_t>(out, nCmp); put<uint32_t>(out, nDis); put<uint32_t>(out, nPruned);
+        out += 'S'; put<uint32_t>(out, si); put<uint32_t>(out, nTrans); put<uint32_t>(out, nCmp); put<uint32_t>(out, nDis); put<uint32_t>(out, nPruned); put<uint32_t>(out, nEvt); put<uint32_t>(out, nOff);
         out += recs; out += 'E';
     }
 
@@ -765,11 +1726,11 @@ struct Search
     }
 
     // ---- master side -------------------------------------------------------------------------------------------------
-    void addViol(int level, uint32_t parent, int op, const std::string& kind, const std::string& msg, bool atSuccessor)
+    void addViol(int level, uint32_t parent, int op, const std::string& kind, const std::string& msg, bool atSuccessor, const std::string& sigOp = std::string())
     {
         const uint8_t* h = level ? &fr[(size_t)parent * level] : (const uint8_t*)"";
         Sys* s = c.make();
-        const std::string opn = op >= 0 ? opBase(s->ops()[op].name) : std::string("construct");
+        const std::string opn = !sigOp.empty() ? sigOp : op >= 0 ? opBase(s->ops()[op].name) : std::string("construct");
         Viol v;
         v.level = (uint32_t)level; v.parent = parent; v.op = op;
         v.sig = std::string(c.name) + "|" + opn + "|" + kind;
@@ -842,6 +1803,13 @@ struct Search
                     addViol(level, si, op, "fatal", "the worker ended during this transition (op, comparison or destruction): " + how, true);
                     if (start[w] != si) skip[w].clear();
                     start[w] = si; skip[w].insert(op);
+                    if (++fatalBySig[viols.back().sig] >= 3)
+                    {
+                        // the same op keeps killing workers: switch every variant of it off for the rest of this container
+                        Sys* t = c.make();
+                        const std::string base = opBase(t->ops()[op].name);
+                        for (int j = 0; j < nopsCached; ++j) if (opBase(t->ops()[j].name) == base && !opOff[j]) { opOff[j] = 1; ++tot.opsOff; }
+                    }
                 }
                 // drop the partial record of the state that was in flight (records are written per finished state, so nothing to drop)
                 if (++restarts > 300) { capHit = true; --open; continue; }
@@ -861,7 +1829,7 @@ struct Search
             {
                 if (b[p] != 'S') { fprintf(stderr, "c20: protocol error\n"); exit(2); }
                 ++p;
-                const uint32_t si = rd32(); tot.transitions += rd32(); tot.comparisons += rd32(); tot.disabled += rd32(); tot.prunedAfterViolation += rd32();
+                const uint32_t si = rd32(); tot.transitions += rd32(); tot.comparisons += rd32(); tot.disabled += rd32(); tot.prunedAfterViolation += rd32(); tot.evtTransitions += rd32(); tot.skippedOff += rd32();
                 while (b[p] != 'E')
                 {
                     if (b[p] == 'C')
@@ -873,8 +1841,9 @@ struct Search
                     {
                         ++p; int32_t op; memcpy(&op, b.data() + p, 4); p += 4;
                         std::string kind = rdS(), msg = rdS(); const bool succ = b[p++] != 0;
+                        const std::string sigOp = rdS();
                         const size_t before = viols.size();
-                        addViol(level, si, op, kind, msg, succ);
+                        addViol(level, si, op, kind, msg, succ, sigOp);
                         lv.push_back(viols.back()); viols.resize(before);
                     }
                     else { fprintf(stderr, "c20: protocol error 2\n"); exit(2); }
@@ -907,6 +1876,7 @@ struct Search
             resetWorld();
             Sys* s = c.make(); std::string k; s->key(k);
             nopsCached = (int)s->ops().size();
+            opOff.assign(nopsCached, 0);
             Fail f; s->compare(f);
             if (!f.bad) s->finish(f);
             if (f.bad) { addViol(0, 0, -1, f.kind, f.msg, false); }
@@ -939,6 +1909,13 @@ static const Container g_containers[] = {
     { "map_int", 6, 8, &MapSys<IntCodec, 2, 2>::make, "XalanMap<int,int> x2, colliding hash (2 residues), loadFactor 0.75, minBuckets 2, eraseThreshold 2, 4 keys" },
     { "map_int_b", 5, 7, &MapSys<IntCodec, 1, 3>::make, "XalanMap<int,int> x2, colliding hash, minBuckets 1, eraseThreshold 3, 4 keys" },
     { "map_str", 5, 6, &MapSys<StrCodec, 2, 2>::make, "XalanMap<XalanDOMString,int> x2, minBuckets 2, eraseThreshold 2, keys '', 'a', 'b', 'ab'" },
+    { "vector", 5, 7, &VecSys::make, "XalanVector<Tracked> x2, values 0..2, positions begin/mid/end" },
+    { "list", 5, 7, &ListSys::make, "XalanList<Tracked> x2, values 0..2, positions begin/mid/end" },
+    { "deque", 6, 8, &DequeSys::make, "XalanDeque<Tracked> block size 2 (A empty, B built with initialSize 3)" },
+    { "string", 4, 5, &StrSys::make, "XalanDOMString x2 against std::u16string, chars a, b, unpaired high surrogate; positions begin/mid/end; counts 0,1,2" },
+    { "string_pool", 6, 8, &PoolSys::make, "XalanDOMStringPool block size 2 over XalanDOMStringHashTable with 2 buckets of initial size 1" },
+    { "bitmap", 5, 6, &BitmapSys::make, "XalanBitmap of 10 bits (2 units), bits 0,7,8,9" },
+    { "object_cache", 8, 10, &CacheSys::make, "XalanObjectCache<Tracked>, at most 3 objects handed out" },
     { "set_int", 6, 8, &SetSys::make, "XalanSet<int> x2 over a map rebuilt with minBuckets 2, eraseThreshold 2" },
 };
 
@@ -1053,7 +2030,7 @@ int main(int argc, char** argv)
     {
         if ((int)(ci % (size_t)nshards) != shard) continue;
         const Container& c = g_containers[ci];
-        if (only && std::string(only).find(c.name) == std::string::npos) continue;
+        if (only && (std::string(",") + only + ",").find(std::string(",") + c.name + ",") == std::string::npos) continue;
         const int depth = std::max(1, (quick ? c.depthQuick : c.depthThorough) + depthDelta);
         const double tc = nowS();
         Search s(c, depth, W, t0 + budget);
@@ -1066,6 +2043,10 @@ int main(int argc, char** argv)
         counts["fatal_outcomes"] += s.tot.fatals;
         counts["ops_disabled_by_precondition"] += s.tot.disabled;
         counts["pruned_after_violation"] += s.tot.prunedAfterViolation;
+        counts["nontrivial_transitions"] += s.tot.evtTransitions;
+        counts["ops_switched_off_after_fatal"] += s.tot.opsOff;
+        counts["transitions_skipped_op_off"] += s.tot.skippedOff;
+        if (s.tot.opsOff) { anyCap = true; counts["cap_hit_" + n] = 1; }
         counts["violations_raw"] += s.tot.violRaw;
         counts["containers"] += 1;
         counts["states_" + n] = s.tot.states;
